@@ -3,7 +3,7 @@
 declare -A PROF=( [C01]=str [C02]=list [C03]=set [C04]=hash [C05]=zset [C06]=key,mixed [C10]=expiry,mixed [C11]=mixed,txmix [C12]=refuse,mixed,txmix [C16]=scan [C17]=binary [C18]=glob [C19]=mixed,key,zset,list,str )
 out=/verif/seeded/SWEEP.txt
 : > $out
-for d in /verif/seeded/C*-m*; do
+for d in ${@:-/verif/seeded/C*-m*}; do
   p=$(basename $d | cut -d- -f1)
   prof=${PROF[$p]:-mixed}
   /verif/tools/try_mutant.sh $d $prof 300 >> $out 2>&1
